@@ -2685,6 +2685,9 @@ class RedunBackendDb(RedunBackend):
                 {Handle.is_valid: False},
                 synchronize_session=False,
             )
+        # Make the invalidation durable now. Left pending, it would be discarded by the rollback
+        # that `db_retry` performs when a later backend call hits a transient error.
+        self.session.commit()
         # Query.update() skips around session, so we need to expire it.
         # https://docs.sqlalchemy.org/en/13/orm/query.html#sqlalchemy.orm.query.Query.update.params.synchronize_session
         self.session.expire_all()
